@@ -667,3 +667,62 @@ func (c *Connector) RemoteDeleteMessage(id imap.MessageID) {
 
 	delete(c.Messages, id)
 }
+
+// AllMessages returns a snapshot of every remote message, ordered by id.
+func (c *Connector) AllMessages() []MsgInfo {
+	c.mu.Lock()
+	defer c.mu.Unlock()
+
+	out := make([]MsgInfo, 0, len(c.Messages))
+	for _, m := range c.Messages {
+		out = append(out, c.info(m))
+	}
+
+	sort.Slice(out, func(i, j int) bool { return out[i].ID < out[j].ID })
+
+	return out
+}
+
+// RemoteDeleteMailbox forgets a mailbox on the remote (messages lose that label).
+func (c *Connector) RemoteDeleteMailbox(id imap.MailboxID) {
+	c.mu.Lock()
+	defer c.mu.Unlock()
+
+	delete(c.Mailboxes, id)
+
+	for _, m := range c.Messages {
+		delete(m.Mailboxes, id)
+	}
+}
+
+// RemoteRenameMailbox renames a mailbox on the remote.
+func (c *Connector) RemoteRenameMailbox(id imap.MailboxID, name []string) {
+	c.mu.Lock()
+	defer c.mu.Unlock()
+
+	if mb, ok := c.Mailboxes[id]; ok {
+		mb.Name = append([]string{}, name...)
+	}
+}
+
+// RemoteSetLiteral replaces the bytes of a remote message.
+func (c *Connector) RemoteSetLiteral(id imap.MessageID, literal []byte) {
+	c.mu.Lock()
+	defer c.mu.Unlock()
+
+	if m, ok := c.Messages[id]; ok {
+		m.Literal = append([]byte{}, literal...)
+	}
+}
+
+// RemoteChangeMessageID gives a remote message a new id.
+func (c *Connector) RemoteChangeMessageID(old, new imap.MessageID) {
+	c.mu.Lock()
+	defer c.mu.Unlock()
+
+	if m, ok := c.Messages[old]; ok {
+		delete(c.Messages, old)
+		m.ID = new
+		c.Messages[new] = m
+	}
+}
